@@ -67,6 +67,8 @@ def _as_index(np, idx, how):
 def run_case(case, ctx):
 	if case['kind'] == 'many':
 		return run_many(case, ctx)
+	if case['kind'] == 'interrupted':
+		return run_interrupted(case, ctx)
 	if case['kind'] == 'omp_env':
 		# the same kind of case in a fresh interpreter whose OpenMP runtime was configured through the environment
 		# (read once at load time): thread limits below the requested count, dynamic team sizes, other schedules
@@ -459,6 +461,67 @@ def run_many(case, ctx):
 	return {'nontrivial': True, 'classes': ['many_refs', f'n={n}', f'container={cont}', f'func={func}']}
 
 
+class _Interrupt(Exception):
+	pass
+
+
+def run_interrupted(case, ctx):
+	"""A bulk call into a caller-supplied out buffer is interrupted by an exception raised from a signal handler (Ctrl-C, an alarm
+	based time-out); the SAME buffer is then used for another call. Afterwards nothing may still be writing into it."""
+	import signal, time
+	import numpy as np
+	from gambit.kmers import KmerSpec
+	from gambit.sigs.base import SignatureArray
+	from gambit.metric import jaccarddist_matrix, jaccarddist
+	from gambit._cython.threads import omp_set_num_threads
+	lim = 2 if ctx.tier == 'quick' else 20
+	if ctx.cache.get('c05_intr', 0) >= lim and not case.get('force'):
+		return {'nontrivial': False, 'classes': ['interrupted_skipped(budget)']}
+	ctx.cache['c05_intr'] = ctx.cache.get('c05_intr', 0) + 1
+	rng = np.random.default_rng(case['seed'])
+	kspec = KmerSpec(11, 'AT')
+	nref, nq = case['nref'], case['nq']
+	big = [np.unique(rng.integers(0, 4 ** 11, size=case['siglen'], dtype=np.uint32)) for _ in range(nref)]
+	qs = [np.unique(rng.integers(0, 4 ** 11, size=case['siglen'], dtype=np.uint32)) for _ in range(nq)]
+	refs = SignatureArray(big, kspec, dtype=np.dtype('u4'))
+	out = np.full((nq, nref), np.nan, dtype=np.float32)
+	# second, small problem whose result is known
+	small_q = [big[i] for i in range(nq)]
+	expected = np.array([[jaccarddist(q, r) for r in big] for q in small_q], dtype=np.float32)
+
+	def handler(signum, frame):
+		raise _Interrupt()
+	old = signal.signal(signal.SIGALRM, handler)
+	interrupted = False
+	try:
+		omp_set_num_threads(case['threads'])
+		signal.setitimer(signal.ITIMER_REAL, case['delay_ms'] / 1000.0)
+		try:
+			for _ in range(50):
+				jaccarddist_matrix(qs, refs, out=out)
+		except _Interrupt:
+			interrupted = True
+		finally:
+			signal.setitimer(signal.ITIMER_REAL, 0)
+		try:
+			res = jaccarddist_matrix(small_q, refs, out=out)
+		except Exception as e:
+			raise Violation('exception', f'bulk call after an interrupted one raised {type(e).__name__}: {e}', case)
+		first = np.array(res, copy=True)
+		time.sleep(0.15)
+		later = np.array(out, copy=True)
+	finally:
+		signal.signal(signal.SIGALRM, old)
+		omp_set_num_threads(4)
+	if not np.array_equal(first.view(np.uint32), expected.view(np.uint32)):
+		raise Violation('cell_after_interrupt', 'the bulk call following an interrupted one returned cells that differ from the pairwise distances', case)
+	if not np.array_equal(later.view(np.uint32), expected.view(np.uint32)):
+		n_bad = int((later.view(np.uint32) != expected.view(np.uint32)).sum())
+		raise Violation('buffer_written_later', f'{n_bad} cells of the caller\'s out buffer changed AFTER the call had returned: something started by the earlier, '
+		                f'interrupted call is still writing into it', case)
+	return {'nontrivial': interrupted, 'classes': ['interrupted_call', 'interrupt_delivered' if interrupted else 'interrupt_too_late']}
+
+
 OMP_ENVS = [{'OMP_THREAD_LIMIT': '2'}, {'OMP_THREAD_LIMIT': '3'}, {'OMP_THREAD_LIMIT': '1'}, {'OMP_DYNAMIC': 'true'},
             {'OMP_DYNAMIC': 'true', 'OMP_THREAD_LIMIT': '5'}, {'OMP_SCHEDULE': 'static'}, {'OMP_SCHEDULE': 'guided,2'},
             {'OMP_NUM_THREADS': '64'}, {'OMP_NUM_THREADS': '1'}, {'OMP_MAX_ACTIVE_LEVELS': '1', 'OMP_THREAD_LIMIT': '2'},
@@ -478,7 +541,11 @@ many_case = st.builds(lambda n, sd, c, f, t, cs: {'kind': 'many', 'n': n, 'unive
                       st.sampled_from(['pairwise', 'matrix', 'pairwise_flat', 'pairwise']), st.sampled_from([1, 4, 16]), st.sampled_from([None, 1000, 512, 1001]))
 
 
+intr_case = st.builds(lambda sd, d, t: {'kind': 'interrupted', 'seed': sd, 'nref': 300, 'nq': 8, 'siglen': 3000, 'delay_ms': d, 'threads': t},
+                      st.integers(0, 2 ** 20), st.sampled_from([3, 8, 15, 30]), st.sampled_from([1, 4, 8]))
+
+
 def strategy(tier):
 	rare = st.sampled_from([False] * 12 + [True] + [False] * 12)
-	rare_m = st.sampled_from([False] * 100 + [True] + [False] * 100)
-	return rare.flatmap(lambda f: omp_env_case(tier) if f else rare_m.flatmap(lambda g: many_case if g else bulk_case(tier)))
+	rare_m = st.sampled_from([False] * 100 + [True, 'intr'] + [False] * 100)
+	return rare.flatmap(lambda f: omp_env_case(tier) if f else rare_m.flatmap(lambda g: intr_case if g == 'intr' else many_case if g else bulk_case(tier)))
